@@ -164,14 +164,46 @@ TEARDOWN = 'rolledout-2phase,rolledout-delegated,rolledout-handover,single-2phas
 DEPLOY = 'deploy,deploy-limit1,deploy-limit0,deploy-rolledout'
 
 
-def sched_jobs(specs):
+def replay_jobs(tier):
+    """spec-guided replay: TLC-generated behaviours of the design model stepped through the real controller"""
+    q = tier == 'quick'
+    return [dict(name='replay-' + inst, shards=4 if q else 14, driver=['replay'],
+                 replay=dict(instance=inst, n=56 if q else 1400, depth=80 if q else 120, budgets=(3, 3, 1)))
+            for inst in ('handover', 'single3')]
+
+
+def sched_jobs(specs, replay=True):
     def f(tier, seed):
         q = tier == 'quick'
         out = []
         for (name, scen, profile, mode, nq, nt, steps) in specs:
             out.append(rnd(name, scen, profile, mode, nq if q else nt, steps, seed, 4 if q else 14))
+        if replay:
+            out += replay_jobs(tier)
         return out
     return f
+
+
+def design_mc(invs):
+    """exhaustive TLC runs of the design model (spec/PKO.tla): every interleaving at API-call granularity within the budgets"""
+    def f(tier):
+        if tier == 'quick':
+            return [dict(name='handover-b111', instance='handover', budgets=(1, 1, 1), invariants=['TypeOK'] + invs),
+                    dict(name='single3-b111', instance='single3', budgets=(1, 1, 1), invariants=['TypeOK'] + invs)]
+        return [dict(name='handover-b211', instance='handover', budgets=(2, 1, 1), invariants=['TypeOK'] + invs, timeout=3000),
+                dict(name='single3-b321', instance='single3', budgets=(3, 2, 1), invariants=['TypeOK'] + invs, timeout=3000)]
+    return f
+
+
+MCINV = {
+    'C01': ['Inv_C01_WriteOnlyIfPermitted', 'Inv_C01_PermittedIsDone'],
+    'C02': ['Act_C02_RevisionMonotone', 'Inv_C02_SingleController', 'Inv_C02_NoTakeFromNewer', 'Act_C02_RevisionFixed'],
+    'C03': ['Inv_C03_Gate'],
+    'C04': ['Inv_C04_ReverseOrder', 'Inv_C04_FinalizerHeld', 'Inv_C04_NothingControlledWhenReleased'],
+    'C05': ['Inv_C05_DeletedWasControlled', 'Inv_C05_CoOwned', 'Inv_C05_Orphan'],
+    'C06': ['Inv_C06_AvailableJustified', 'Inv_C06_ControllerOfSeen', 'Act_C06_SucceededSticky', 'Inv_C06_Archived'],
+    'C09': ['Inv_C09_NoWritesWhilePaused'],
+}
 
 
 ASSUME = ['in-memory API server model (spec/Store.tla semantics, harness/sim/store.go)',
@@ -180,7 +212,8 @@ ASSUME = ['in-memory API server model (spec/Store.tla semantics, harness/sim/sto
 
 NOT_APPLICABLE = {}
 
-TECH = 'TLA+ trace validation with TLC: traces of the real controllers vs. spec/TraceObs.tla invariants'
+TECH = ('TLA+ model-based: exhaustive TLC check of the design model spec/PKO.tla; TLC-generated behaviours replayed step by step into the real '
+        'controller with abstract-state comparison; TLC trace validation of every recorded execution against spec/TraceObs.tla invariants')
 LEVEL_TEXT = ('Every API request the real controllers issue in seeded schedules / table rows is recorded and TLC evaluates the '
               'property invariants of the TLA+ trace specification on every state; violations are properties of real executions. '
               'Bounded: schedules and rows are sampled (quick) or enumerated to the stated bound (thorough).')
@@ -188,21 +221,21 @@ LEVEL_NOTE = ('Trusted: the in-memory API server model (harness/sim/store.go = s
               'Not covered: schedules/inputs outside the drivers\' bounds, real informer/watch timing.')
 
 CHECKS = {
-    'C01': dict(level='model_checking', invariants=INV['C01'], jobs=jobs_c01,
+    'C01': dict(level='model_checking', invariants=INV['C01'], jobs=lambda t, s: jobs_c01(t, s) + replay_jobs(t), mc=design_mc(MCINV['C01']),
                 assumptions=['in-memory API server model (spec/Store.tla semantics, harness/sim/store.go)',
                              'third party acts between reconciles (pass-atomic schedules) as the statement quantifies']),
-    'C02': dict(level='model_checking', invariants=INV['C02'], assumptions=ASSUME, jobs=sched_jobs([
+    'C02': dict(level='model_checking', invariants=INV['C02'], assumptions=ASSUME, mc=design_mc(MCINV['C02']), jobs=sched_jobs([
         ('handover-atomic', HANDOVER, 'handover', 'atomic', 160, 3000, 70)])),
-    'C03': dict(level='model_checking', invariants=INV['C03'], assumptions=ASSUME, jobs=sched_jobs([
+    'C03': dict(level='model_checking', invariants=INV['C03'], assumptions=ASSUME, mc=design_mc(MCINV['C03']), jobs=sched_jobs([
         ('rollout-atomic', ROLLOUT + ',' + HANDOVER, 'rollout', 'atomic', 120, 2000, 70),
         ('rollout-api', ROLLOUT + ',' + HANDOVER, 'rollout', 'api', 120, 2000, 120)])),
-    'C04': dict(level='model_checking', invariants=INV['C04'], assumptions=ASSUME, jobs=sched_jobs([
+    'C04': dict(level='model_checking', invariants=INV['C04'], assumptions=ASSUME, mc=design_mc(MCINV['C04']), jobs=sched_jobs([
         ('teardown-atomic', TEARDOWN, 'teardown', 'atomic', 120, 2000, 70),
         ('teardown-api', TEARDOWN, 'teardown', 'api', 120, 2000, 140)])),
-    'C05': dict(level='model_checking', invariants=INV['C05'], assumptions=ASSUME, jobs=sched_jobs([
+    'C05': dict(level='model_checking', invariants=INV['C05'], assumptions=ASSUME, mc=design_mc(MCINV['C05']), jobs=sched_jobs([
         ('race-api', TEARDOWN, 'race', 'api', 200, 3000, 140),
         ('teardown-atomic', TEARDOWN, 'teardown', 'atomic', 80, 1000, 70)])),
-    'C06': dict(level='model_checking', invariants=INV['C06'], assumptions=ASSUME, jobs=sched_jobs([
+    'C06': dict(level='model_checking', invariants=INV['C06'], assumptions=ASSUME, mc=design_mc(MCINV['C06']), jobs=sched_jobs([
         ('all-atomic', ROLLOUT + ',' + TEARDOWN, 'all', 'atomic', 120, 2000, 80),
         ('all-api', ROLLOUT + ',' + TEARDOWN, 'all', 'api', 120, 2000, 150)])),
     'C07': dict(level='model_checking', invariants=INV['C07'], assumptions=ASSUME, jobs=sched_jobs([
@@ -211,7 +244,7 @@ CHECKS = {
     'C08': dict(level='model_checking', invariants=INV['C08'], assumptions=ASSUME, jobs=sched_jobs([
         ('deploy-atomic', DEPLOY, 'deploy', 'atomic', 160, 3000, 160),
         ('deploy-api', DEPLOY, 'deploy', 'api', 120, 2000, 250)])),
-    'C09': dict(level='model_checking', invariants=INV['C09'], assumptions=ASSUME, jobs=sched_jobs([
+    'C09': dict(level='model_checking', invariants=INV['C09'], assumptions=ASSUME, mc=design_mc(MCINV['C09']), jobs=sched_jobs([
         ('pause-atomic', ROLLOUT + ',' + HANDOVER + ',collision', 'pause', 'atomic', 120, 2000, 80),
         ('pause-api', ROLLOUT + ',' + HANDOVER + ',collision', 'pause', 'api', 120, 2000, 150),
         ('deploy-pause', DEPLOY, 'deploy-pause', 'atomic', 80, 1500, 160)])),
